@@ -313,6 +313,20 @@ def check_function(ctx, f: FuncInfo, rule: str = "R-TWIN") -> tuple[int, int]:
             eb = _bind(target, skip_self, eargs, ekws)
             defaults = target.defaults() if target is not None else {}
             diffs = []
+            if target is None:
+                # unresolved callee (numpy/scipy): a value passed positionally in one arm and by keyword in the
+                # other cannot be bound to a name; pair such leftovers by value
+                lonly = {p: v for p, v in lb.items() if p not in eb and p not in DASK_ONLY}
+                eonly = {p: v for p, v in eb.items() if p not in lb}
+                if lonly and eonly and len(lonly) == len(eonly) and (
+                        all(p.startswith("#") for p in lonly) != all(p.startswith("#") for p in eonly)):
+                    lk = sorted(_key(v, f.cls, llocal) for v in lonly.values())
+                    ek = sorted(_key(v, f.cls, elocal) for v in eonly.values())
+                    if lk == ek:
+                        for p in lonly:
+                            lb.pop(p)
+                        for p in eonly:
+                            eb.pop(p)
             for p in sorted(set(lb) | set(eb)):
                 lv, ev = lb.get(p), eb.get(p)
                 if (f.qualname, cname, p) in EXCEPTIONS:
